@@ -3,7 +3,7 @@ from . import epnames, schema_core, toc, tocread, tocreg, wrappers
 
 
 def build(reg):
-    specs = toc.add_toc(reg) + tocreg.add_tocreg(reg) + schema_core.build_c20_schema(reg) + wrappers.add_destroy(reg) + epnames.add_stored(reg) + tocread.add_tocread(reg)  # (and: an object's schema is read back from its node name); a meta-less copy must not unregister what the originals still use
+    specs = toc.add_toc(reg) + tocreg.add_tocreg(reg) + schema_core.build_c20_schema(reg) + wrappers.add_destroy(reg) + epnames.add_stored(reg) + tocread.add_tocread(reg) + tocread.add_tocread2(reg)  # (and: an object's schema is read back from its node name); a meta-less copy must not unregister what the originals still use
     return {
         "verify": specs,
         "lemmas": [],
